@@ -6,7 +6,7 @@
    seq   (items)             -> the same for a sequence of events / "ping" items
    parse text                -> the blocks found in an arbitrary stream
    live  iface (items)       -> the ping chunk, the concatenated event chunks, the headers
-   cs    charset (fields)    -> as enc (ASCII text under an ASCII-compatible charset)
+   cs    charset (fields)    -> as enc (text the charset can encode, read back with the same charset)
 
    a field is ( key value ) with key in data/event/id/retry; an item is a list of
    fields or the string "ping". *)
